@@ -1104,7 +1104,11 @@ pub fn check_c02_free_child(tier: Tier, seed: u64) -> i32 {
         let tid = format!("{:?}", std::thread::current().id()).replace(|ch: char| !ch.is_ascii_digit(), "");
         let _ = std::fs::write(format!("{dir}/current_{tid}.json"), serde_json::to_string(c).unwrap_or_default());
         let r = exec_case(c);
-        executions.fetch_add(take_executions(), Ordering::Relaxed);
+        let n = executions.fetch_add(take_executions(), Ordering::Relaxed);
+        // self-test of the crash path: VERIF_C02_TEST_CRASH makes this process die the way corrupted memory would
+        if n > 500 && std::env::var("VERIF_C02_TEST_CRASH").is_ok() {
+            unsafe { libc::raise(libc::SIGSEGV) };
+        }
         r
     };
     let t_max = tier.pick(3, 4);
